@@ -283,7 +283,28 @@ def gen_case(rng):
             'mode': 'router' if rng.random() < 0.10 else 'mapper', 'meta': meta}
     if not router_ok(case):
         case['mode'] = 'mapper'
+    if s is not None and rng.random() < 0.2:
+        case['history'] = gen_history(rng, case, structs)
     return case
+
+
+def gen_ops(rng):
+    return [[rng.choice(['set', 'set', 'add', 'del', 'conv']), rng.randrange(4)] for _ in range(rng.choice([0, 1, 1, 1, 2, 3]))]
+
+
+def gen_history(rng, case, structs):
+    """Earlier dispatches over the same mapper/app; mostly the SAME path as the final dispatch, after which the match
+    dictionary that was handed out is edited in place."""
+    hist = []
+    for _ in range(rng.choice([1, 1, 2, 3])):
+        if rng.random() < 0.7:
+            path = case['path']
+        else:
+            elems, star = rng.choice(structs)
+            path = instantiate(rng, elems, star)[0].encode('utf-8').decode('latin-1')
+        hist.append({'path': path, 'method': case['method'] if rng.random() < 0.8 else rng.choice(['GET', 'POST']),
+                     'mutate': gen_ops(rng)})
+    return hist
 
 
 def router_ok(case):
@@ -331,6 +352,13 @@ def targeted(rng):
         yield _case(['/{a}', '/{b}', '/*all'], b, {0: [['method', 'POST']], 1: [['const', 1], ['const', 0]]})
         yield _case(['/f/{a}', '/f/*rest', '/{x}/{y}'], b, {0: [['eq', 'a', 'a']]})
         yield _case(['/f/{a}', '/f/*rest', '/{x}/{y}'], b, {0: [['eq', 'a', 'zz']]}, mode='router')
+    # histories: same path dispatched again after the handed-out dictionary was edited
+    for p, b in [('/f/{a}', '/f/x'), ('/{y}/{m:\\d{2}}', '/2024/09'), ('/f/*rest', '/f/a/b'), ('/{a}{b}', '/xyz')]:
+        for ops in ([['set', 0]], [['add', 0]], [['del', 0]], [['conv', 0]], [['set', 1], ['del', 0]]):
+            for mode in ('mapper', 'router'):
+                c = _case([p], b, mode=mode)
+                c['history'] = [{'path': c['path'], 'method': 'GET', 'mutate': ops}]
+                yield c
     # small-scope enumeration over {a, /, ., newline}
     alpha = ['a', '/', '.', '\n']
     small = ['/a', '/{x}', '/a/*r', '/{x}.{y}', '/a{x:.*}', '/.a', '/{x:[^/]*}a']
@@ -339,3 +367,57 @@ def targeted(rng):
             s = '/' + ''.join(tup)
             for p in small:
                 yield _case([p], s)
+
+
+# ------------------------------------------------------------ exhaustive small-scope sub-run (thorough tier)
+EXH_ITEMS = ['a', '/', '.', '\n', None]            # None = a bare placeholder {nK}
+EXH_ALPHA = ['a', '/', '.', '\n']
+EXH_SPACE = ('A: every single route whose pattern has <= 3 items over {a, /, ., newline, {name}} with and without a '
+             'trailing *r (312 patterns) x every PATH_INFO "/"+s, s over {a, /, ., newline}, |s| <= 5 (1365 paths); '
+             'B: every ordered pair of such patterns with <= 2 items (62 x 62) x every path with |s| <= 3 (85 paths)')
+
+
+def _exh_patterns(maxitems):
+    out = []
+    for L in range(0, maxitems + 1):
+        for tup in itertools.product(EXH_ITEMS, repeat=L):
+            body = ''.join(('{n%d}' % i) if it is None else it for i, it in enumerate(tup))
+            out.append(body)
+            out.append(body + '*r')
+    return out
+
+
+def _exh_paths(maxlen):
+    out = []
+    for L in range(0, maxlen + 1):
+        for tup in itertools.product(EXH_ALPHA, repeat=L):
+            out.append('/' + ''.join(tup))
+    return out
+
+
+def exhaustive_count():
+    return len(_exh_patterns(3)) * len(_exh_paths(5)) + len(_exh_patterns(2)) ** 2 * len(_exh_paths(3))
+
+
+def exhaustive_cases():
+    def mk(pats, path):
+        return {'decls': [{'name': 'r%d' % i, 'pattern': p, 'static': 0, 'preds': []} for i, p in enumerate(pats)],
+                'path': path, 'method': 'GET', 'mode': 'mapper', 'meta': {'kind': 'exh'}}
+    paths5 = _exh_paths(5)
+    for p in _exh_patterns(3):
+        for s in paths5:
+            yield mk([p], s)
+    paths3 = _exh_paths(3)
+    p2 = _exh_patterns(2)
+    for p in p2:
+        for q in p2:
+            for s in paths3:
+                yield mk([p, q], s)
+
+
+def generate(rng, tier, n):  # noqa: F811  (replaces the definition above)
+    if tier == 'thorough':
+        for c in exhaustive_cases():
+            yield c
+    for _ in range(n):
+        yield gen_case(rng)
